@@ -560,6 +560,11 @@ func c05exec(c *vt.Ctx, hist []string, f c05faults, pipeLike bool, ctrl *sched.C
 		}
 		rig := peer.NewClientRig(c, ctrl, peer.ClientOpts{PipeLike: pipeLike, Faults: faults})
 		w := &c05world{c: c, rig: rig, cancels: map[string]context.CancelFunc{}, ids: map[string]string{}}
+		// like a proxy (jhttp.Bridge), relabel every answered response — with the id
+		// another request of this client may be using at that moment
+		rig.Relabel = func(tag string) string {
+			return map[string]string{"r1": "2", "r2": "1", "r3": "1", "r4": "2"}[tag]
+		}
 		states := []c05state{{Reqs: map[string]c05req{}, Notes: map[string]string{}}}
 		if f.recvK == 1 {
 			states[0].stop("fault")
